@@ -210,6 +210,7 @@ package syntax
 //@   nopanic
 //@   requires err != nil && 0 <= err.info.pos
 //@   opt replay lexerr
+//@   cehint len(err.info.src) > 0 && len(err.info.src) <= 12 && err.info.pos < len(err.info.src) && err.info.loc.Col > 2 * len(err.info.src) + 2
 //@   probe srclen: len(err.info.src)
 //@   probe pos: err.info.pos
 //@   probe col: err.info.loc.Col
